@@ -134,5 +134,5 @@ pub fn twin_d_value<E: Env>(e: &E, k: u8) -> i64 {
     e.single(1).unwrap_or(ABSENT) + k as i64 + 90_000
 }
 pub fn twin_x_value<E: Env>(e: &E, shape: u8, k: u8) -> i64 {
-    e.single(shape % 2).unwrap_or(ABSENT) * 7 + k as i64 + 100_000 * (shape as i64 % 6 + 2)
+    e.single(shape % 2).unwrap_or(ABSENT) * 7 + k as i64 + 100_000 * (shape as i64 % 10 + 2)
 }
